@@ -4,11 +4,18 @@
 (* did (harness/c16, one record per distinct observation of a scenario)    *)
 (* against Collect.tla.                                                    *)
 (*                                                                         *)
-(* A record is the final, quiescent state of one real round (all scripted  *)
-(* clocks released, virtual time past every completion time) projected on  *)
-(* what can be seen from outside.  The variables of Collect are BOUND to   *)
-(* that projection (INSTANCE ... WITH); unlogged ones are existentially    *)
-(* chosen (got) or given their only consistent value (num, i, dn).         *)
+(* A record is ONE ROUND of a history of rounds that the harness ran on one *)
+(* collector value (R.rnd = its position; R.live = measurement calls of     *)
+(* earlier rounds still running when it started), as it looked at the end   *)
+(* of the history: what the call returned (time since the round's start,    *)
+(* result slice) and the final, quiescent state (all scripted clocks of all *)
+(* rounds released, virtual time past every completion time), projected on  *)
+(* what can be seen from outside.  The variables of Collect are BOUND to    *)
+(* that projection (INSTANCE ... WITH); unlogged ones are given their only   *)
+(* consistent value (num, i, dn, got -- see RExactlyOncePrefix).  Whatever   *)
+(* of ANY round is still alive at the end shows in dpc (not Quiet).  The     *)
+(* property section is thus judged for every round of every history, and it  *)
+(* does not depend on the number of clocks (5 .. 64 in the large rounds).    *)
 (*   monitor (CollectTrace_mon.cfg):  the property section of Collect,     *)
 (*            evaluated on the bound state            -> VIOLATION         *)
 (*   strict  (CollectTrace_strict.cfg): the observation is one of the      *)
@@ -30,7 +37,10 @@ TSpec == TInit /\ [][TNext]_l
 
 R == Trace[l]
 RN == R.n
-\* number of leading written entries = the j the call must have reached
+\* R.ms[x]: 0 = entry x holds no result (sentinel intact, zero value, or a value carrying an
+\* error: the statement says where successful results go, not what else the slice holds);
+\* k / -k = the successful / error result of this round's clock k; 99 = another error-free value.
+\* number of leading entries that hold something = the j the call must have reached
 Lead(s) == IF \E x \in DOMAIN s : s[x] = 0
              THEN (CHOOSE x \in DOMAIN s : s[x] = 0 /\ \A y \in 1 .. (x - 1) : s[y] # 0) - 1
              ELSE Len(s)
@@ -40,11 +50,12 @@ Quiet == R.leaked = 0 /\ ~R.exitdead
 \* the recorded final state as a state of Collect; G = the unlogged set of
 \* clocks whose result the call received (C({}) where got is not mentioned)
 C(G) == INSTANCE Collect WITH
-  MaxClocks <- 4, Overlap <- TRUE, Fault <- "none",
+  MaxClocks <- 64, Rounds <- 3, DVals <- {1, 2, 3, 5}, Overlap <- TRUE, Hist <- FALSE, Fault <- "none",
+  rnd <- R.rnd, osnd <- <<>>, odr <- <<>>, gap <- R.gap, live <- R.live, hist <- <<>>,
   n <- RN,
   dl <- [k \in 1 .. RN |-> R.d[k]],
   oc <- [k \in 1 .. RN |-> R.o[k]],
-  now <- 3, ctxDone <- TRUE,
+  now <- 5, ctxDone <- TRUE,                     \* = TEnd
   mpc <- IF R.mainpan THEN "panicked" ELSE IF R.returned THEN "done" ELSE "loop",
   num <- IF R.returned \/ R.mainpan THEN 0 ELSE 1,
   i <- 0, dn <- 0,
@@ -61,8 +72,11 @@ Rng(s) == {s[x] : x \in DOMAIN s}
 
 \* ------------------------------------------------------------- monitor
 RByDeadline == l > 0 => (C({})!ByDeadline /\ ~R.late)
+\* got is not logged: some set G of this round's clocks must do.  If one does,
+\* Range(Prefix) = {k \in G : ok} consists of successful clocks of this round, and then
+\* G = Range(Prefix) does as well -- so that one witness decides (2^64 candidates otherwise)
 RExactlyOncePrefix == l > 0 =>
-  /\ \E G \in SUBSET (1 .. RN) : C(G)!ExactlyOncePrefix
+  /\ C(Rng(SubSeq(R.ms, 1, J)) \cap (1 .. RN))!ExactlyOncePrefix
   /\ R.stable                                   \* and nothing is written after the return either
 \* (entries that are not successful results of a clock are ExactlyOncePrefix's business)
 RInTimeCounted == l > 0 => (Rng(SubSeq(R.ms, 1, J)) \subseteq 1 .. RN => C({})!InTimeCounted)
@@ -74,12 +88,20 @@ RSecondCallRefused == l > 0 => C({})!SecondCallRefused
 RCounterRestored == l > 0 => C({})!CounterRestored
 
 \* -------------------------------------------------------------- strict
+\* R.id > 0: a single round whose scenario TLC enumerated (allowed.ndjson holds the set of
+\* its outcomes); R.id = 0: a round of a longer history or a round with many clocks, explained
+\* by the closed form of a round's outcomes (Collect!OutcomeForm, which TLC checked to hold
+\* for every round of every history: Collect!OutcomeIsOfForm)
 A == Allowed[R.id]
-SKnownScenario == l > 0 => (R.id \in DOMAIN Allowed /\ A.n = RN /\ A.d = R.d /\ A.o = R.o)
-SMember == l > 0 =>
+SKnownScenario == (l > 0 /\ R.id > 0) => (R.id \in DOMAIN Allowed /\ A.n = RN /\ A.d = R.d /\ A.o = R.o)
+SMember == (l > 0 /\ R.id > 0) =>
   \E x \in DOMAIN A.outs :
      LET a == A.outs[x] IN
        /\ a.rt = R.rt /\ a.j = J
        /\ Rng(a.prefix) = Rng(SubSeq(R.ms, 1, J))
        /\ a.phase = R.phase /\ a.refused = R.refused
+SOfForm == (l > 0 /\ R.id = 0) =>
+  /\ R.returned /\ ~R.mainpan
+  /\ C({})!OutcomeForm(RN, R.d, R.o, R.rt, Rng(SubSeq(R.ms, 1, J)))
+  /\ R.refused = (R.phase = "during")
 =============================================================================
